@@ -68,13 +68,12 @@ def check_pair(cx, chk):
                         entry_in_parent = None
                     else:
                         st0 = body_call[2][0]
-                        src = st0[2][0] if is_call(st0, "clone") else st0
-                        rb, root = common.capture_root(cx, inst.crate, pb, src)
+                        rb, root = common.resolve_state(cx, inst.crate, pb, st0)
                         entry_in_parent = (rb.path, root)
                         if not (root == ("param", 1) and not rb.is_closure and rb.path == inst.rule_fns.get(rule[len("parse_"):] if rule.startswith("parse_") else rule)):
                             problems.append("the body is not evaluated from the rule's entry state: %s in %s" % (mir.show(root), short(rb.path)))
                 # A: the entry state
-                ra, roota = common.capture_root(cx, inst.crate, b, A)
+                ra, roota = common.resolve_state(cx, inst.crate, b, A)
                 if not (roota == ("param", 1) and not ra.is_closure):
                     problems.append("start state %s is not the rule's entry state" % mir.show(roota))
                 elif entry_in_parent is not None and entry_in_parent[0] != ra.path:
